@@ -22,6 +22,9 @@ def run_property(pid: str, repo: str, tier: str, seed: int, quiet: bool = False,
     try:
         mod = importlib.import_module(f"qsa.props.{pid.lower()}")
         prog = Program(repo)
+        from . import memo
+
+        memo.check(prog, ledger, pid)  # rule M (shared): no history-dependent memo on the property's path
         mod.run(prog, ledger)
         return ledger.finish(), ledger, ""
     except AnalysisError as exc:
